@@ -55,7 +55,7 @@ func init() {
 
 func (p *c18) ID() string { return "C18" }
 func (p *c18) Rule() string {
-	return "every stack of L layers (quick: L<=2 plus every 3-layer stack with a nil layer or a repeated state; thorough: all L<=4) where each layer is nil or one of 48 MapFS states over {a, d, d/x, d/y, e, e/z} (a,d,e absent/file; d,e also directory incl. explicitly empty); each stack is queried with ReadFile/Stat/ReadDir on every name of the universe, '.', a missing name, and 7 glob patterns; globsort cases: 10 stacks over two fixed layers whose directory names are prefixes of one another followed by a character that sorts before '/' (l, l-v2, l.bak, 'l x', l!), 6 patterns with a wildcard directory part, against the sorted union of fs.Glob per layer; non-trivial = stack with at least one non-nil layer; distinct by the tuple of layer states"
+	return "every stack of L layers (quick: L<=2 plus every 3-layer stack with a nil layer or a repeated state; thorough: all L<=4) where each layer is nil or one of 48 MapFS states over {a, d, d/x, d/y, e, e/z} (a,d,e absent/file; d,e also directory incl. explicitly empty); each stack is queried with ReadFile/Stat/ReadDir on every name of the universe, '.', a missing name, and 14 glob patterns (six of them with a character class or an escape but no * or ?); globsort cases: 10 stacks over two fixed layers whose directory names are prefixes of one another followed by a character that sorts before '/' (l, l-v2, l.bak, 'l x', l!), 6 patterns with a wildcard directory part, against the sorted union of fs.Glob per layer; non-trivial = stack with at least one non-nil layer; distinct by the tuple of layer states"
 }
 
 func (p *c18) stacks(ctx core.Ctx) int {
@@ -154,7 +154,8 @@ func c18Build(l c18Layer, li int) (fstest.MapFS, map[string]refEntry) {
 }
 
 var c18Names = []string{"a", "d", "d/x", "d/y", "e", "e/z", "nope", "d/nope"}
-var c18Globs = []string{"*", "*/*", "d/*", "?", "[ad]*", "e/z", "zz*", "[a"}
+// the last six are wildcard-free in the sense of "no * and no ?": a character class or an escape is still a pattern
+var c18Globs = []string{"*", "*/*", "d/*", "?", "[ad]*", "e/z", "zz*", "[a", "[ad]", "[^a]", "d/[xy]", "e/[a-z]", `\a`, `d/\x`}
 
 func (p *c18) Exec(ctx core.Ctx, cc any) core.Obs {
 	c := cc.(c18Case)
